@@ -292,6 +292,15 @@ def run():
         rep.add(o)
 
     rep.extra["closures_composed"] = {"spawn_in_visit_dir": spawn_checked[0], "root_spawn": root_seen[0]}
+    # --name / --path / --exclude: pattern matching and the anchoring of relative patterns at the base directory (shared with C16)
+    try:
+        from obligations import C16_glob
+        C16_glob.add(rep, ctx)
+    except Inconclusive as e:
+        from common import Obligation
+        o = Obligation("patterns and selector", "z3 regex equivalence")
+        o.verdict, o.detail = "inconclusive", str(e)
+        rep.add(o)
     return rep
 
 
